@@ -20,6 +20,8 @@ import MinizProof.Lemmas.CoreRingCalls
 import MinizProof.Lemmas.CoreRingRun
 import MinizProof.Lemmas.CoreFlags
 import MinizProof.Props.C03
+import MinizProof.Props.C06
+import MinizProof.Lemmas.CoreRingValid
 set_option maxRecDepth 100000
 namespace C07
 open Spec
@@ -527,5 +529,121 @@ example : Model.Core.FlagsRF 0 4 ∧ Model.Core.FlagsRF 2 6 ∧ Model.Core.Flags
 example : ((Model.Core.runCalls 6 0 {} (Array.replicate 4 0) 0 #[]
     [(#[0x01, 0x02, 0x00], 1), (#[0xfd, 0xff, 0x41, 0x42], 4)]).map (·.status)) =
     [Model.Core.stNeedsMoreInput, Model.Core.stDone] := by decide +kernel
+
+open Model.Core in
+/-- THE RING DRIVER AGREES WITH ITS FLAT MIRROR ON EVERY PART OF A VALID STREAM — no hypothesis about
+    the mirror: whatever part of a valid stream has been supplied and whatever the window, a call is
+    never a failure (`Lemmas/CoreRingValid`, from the window theorems of C08 and the input-extension
+    lemma through the call composition). -/
+theorem ring_driver_on_a_valid_stream (flagsR flagsF W maxDist : Nat) (hfl : FlagsRF flagsR flagsF) (hbig : 32768 ≤ W)
+    (oR oF : Array UInt8) (hW : oR.size = W) (hg : badGeometry flagsR W 0 = false)
+    (hz : hasFlag flagsR fParseZlib = false) (hstop : hasFlag flagsR fStopOnBlockBoundary = false)
+    (chunks : List (Array UInt8)) (b : Array UInt8) (res : Spec.Inflated)
+    (hspec : Spec.inflateSpec #[] maxDist (catList chunks ++ b) 0 = .accept res)
+    (hsz : W * (chunks.length + 1) ≤ oF.size)
+    (hsus : ∀ x ∈ (runRing flagsR W {} oR 0 #[] chunks).dropLast, suspended x.1) :
+    RunsAgree 0 (runRing flagsR W {} oR 0 #[] chunks)
+      (runCalls flagsF 0 {} oF 0 #[] (ringGrants flagsR W {} oR 0 0 #[] chunks)) :=
+  ring_agrees_valid flagsR flagsF W maxDist hfl hbig oR oF hW hg hz hstop _ res hspec chunks.length chunks b rfl rfl hsz hsus
+
+open Model.Core in
+/-- A VALID RAW STREAM THROUGH A RING, TO THE END — any chunking, any number of laps, nothing assumed
+    about the run except what a driver does: it goes on while calls are suspended. If the last call is
+    neither suspended nor "cannot make progress" (the driver stopped for a reason of the decoder's),
+    that reason is `Done`: the bytes taken out of the ring after each call, concatenated, are exactly
+    the plaintext the reference decoder defines for the stream (whatever follows it in the input), and
+    the consumed counts add up to its encoded length. -/
+theorem valid_stream_through_a_ring_to_the_end (flagsR flagsF W : Nat) (hfl : FlagsRF flagsR flagsF) (hbig : 32768 ≤ W)
+    (c : Array UInt8) (cs : List (Array UInt8)) (b : Array UInt8) (oR : Array UInt8) (res : Spec.Inflated)
+    (hW : oR.size = W) (hg : badGeometry flagsR W 0 = false)
+    (hz : hasFlag flagsR fParseZlib = false) (hstop : hasFlag flagsR fStopOnBlockBoundary = false)
+    (hspec : Spec.inflateSpec #[] 32768 (catList (c :: cs) ++ b) 0 = .accept res)
+    (hsus : ∀ x ∈ (runRing flagsR W {} oR 0 #[] (c :: cs)).dropLast, suspended x.1)
+    (lastR : Res × Nat) (hlast : (runRing flagsR W {} oR 0 #[] (c :: cs)).getLast? = some lastR)
+    (hstopped : ¬ suspended lastR.1) (hnc : lastR.1.status ≠ stFailedCannotMakeProgress) :
+    lastR.1.status = stDone ∧
+    deliveredRing (runRing flagsR W {} oR 0 #[] (c :: cs)) = res.out ∧
+    ((runRing flagsR W {} oR 0 #[] (c :: cs)).map (·.1.consumed)).sum = (res.bitsUsed + 7) / 8 := by
+  have hA := ring_driver_on_a_valid_stream flagsR flagsF W 32768 hfl hbig oR (Array.replicate (W * ((c :: cs).length + 1)) 0) hW hg hz hstop
+    (c :: cs) b res hspec (by simp) hsus
+  generalize hfs : runCalls flagsF 0 {} (Array.replicate (W * ((c :: cs).length + 1)) 0) 0 #[]
+    (ringGrants flagsR W {} oR 0 0 #[] (c :: cs)) = fs at hA
+  have hfne : fs ≠ [] := RunsAgree.nonempty _ _ _ hA (by simp [runRing])
+  obtain ⟨lastF, hlastF⟩ : ∃ lf, fs.getLast? = some lf := by
+    cases h : fs.getLast? with
+    | none => exact absurd (List.getLast?_eq_none_iff.mp h) hfne
+    | some lf => exact ⟨lf, rfl⟩
+  have hsusF := RunsAgree.suspended _ _ _ hA hsus
+  obtain ⟨hl1, _⟩ := RunsAgree.last _ _ _ hA lastR lastF hlast hlastF
+  -- the flat driver against the single flat call on everything supplied
+  have hgeoF : badGeometry flagsF (Array.replicate (W * ((c :: cs).length + 1)) (0 : UInt8)).size 0 = false := by
+    simp [badGeometry, hfl.flat]
+  have hgr : ringGrants flagsR W {} oR 0 0 #[] (c :: cs) =
+      (c, 0 + W) :: ringGrants flagsR W (decompress {} (#[] ++ c) oR 0 (W - 0) flagsR).r
+        (decompress {} (#[] ++ c) oR 0 (W - 0) flagsR).out (ringNext W (0 + (decompress {} (#[] ++ c) oR 0 (W - 0) flagsR).written))
+        (baseNext W 0 (0 + (decompress {} (#[] ++ c) oR 0 (W - 0) flagsR).written))
+        ((#[] ++ c).extract (decompress {} (#[] ++ c) oR 0 (W - 0) flagsR).consumed (#[] ++ c).size) cs := rfl
+  have hmono := grantsMono_ringGrants flagsR W (c :: cs) {} oR 0 0 #[]
+  have hcat := catChunks_ringGrants flagsR W (c :: cs) {} oR 0 0 #[]
+  have hroomG := lastGrant_ringGrants_le flagsR W (c :: cs) {} oR 0 0 #[] (by simp)
+  rw [hgr] at hfs hmono hcat hroomG
+  have hone := any_number_of_calls_equal_one_call flagsF 0 _ {} (Array.replicate (W * ((c :: cs).length + 1)) 0) 0 #[] c (0 + W)
+    Bnd_fresh hgeoF hmono (by rw [hfs]; exact hsusF) lastF (by rw [hfs]; exact hlastF)
+  dsimp only at hone
+  rw [hcat] at hone
+  -- that single call is `Done`: it is not a failure, and the driver says it is not suspended or starved
+  have hpre : (Array.replicate (W * ((c :: cs).length + 1)) (0 : UInt8)).extract 0 0 = #[] := by simp
+  have hnever := prefix_never_fails {} (#[] ++ catList (c :: cs)) b (Array.replicate (W * ((c :: cs).length + 1)) 0) 0
+    (0 + lastGrant ((c, 0 + W) :: ringGrants flagsR W (decompress {} (#[] ++ c) oR 0 (W - 0) flagsR).r
+        (decompress {} (#[] ++ c) oR 0 (W - 0) flagsR).out (ringNext W (0 + (decompress {} (#[] ++ c) oR 0 (W - 0) flagsR).written))
+        (baseNext W 0 (0 + (decompress {} (#[] ++ c) oR 0 (W - 0) flagsR).written))
+        ((#[] ++ c).extract (decompress {} (#[] ++ c) oR 0 (W - 0) flagsR).consumed (#[] ++ c).size) cs) - 0)
+    flagsF 32768 res rfl ⟨rfl, rfl, rfl⟩ hfl.flat (by rw [hfl.zlib]; exact hz) (by rw [hfl.stop]; exact hstop) (Nat.zero_le _)
+    (by rw [hpre, Array.empty_append]; exact hspec)
+  rw [hone.1, ← hl1] at hnever
+  have hdone : lastR.1.status = stDone := by
+    rcases hnever with h | h | h | h
+    · exact h
+    · exact absurd (.inr h) hstopped
+    · exact absurd (.inl h) hstopped
+    · exact absurd h hnc
+  -- so the reference decoder accepts what was supplied, and it fits the last grant (C04 converse)
+  have honeDone : (decompress {} (#[] ++ catList (c :: cs)) (Array.replicate (W * ((c :: cs).length + 1)) 0) 0
+      (0 + lastGrant ((c, 0 + W) :: ringGrants flagsR W (decompress {} (#[] ++ c) oR 0 (W - 0) flagsR).r
+        (decompress {} (#[] ++ c) oR 0 (W - 0) flagsR).out (ringNext W (0 + (decompress {} (#[] ++ c) oR 0 (W - 0) flagsR).written))
+        (baseNext W 0 (0 + (decompress {} (#[] ++ c) oR 0 (W - 0) flagsR).written))
+        ((#[] ++ c).extract (decompress {} (#[] ++ c) oR 0 (W - 0) flagsR).consumed (#[] ++ c).size) cs) - 0) flagsF).status = stDone := by
+    rw [hone.1, ← hl1]; exact hdone
+  rcases done_raw_flat {} _ _ 0 _ flagsF rfl ⟨rfl, rfl, rfl⟩ hfl.flat (by rw [hfl.zlib]; exact hz) (by rw [hfl.stop]; exact hstop)
+    (Nat.zero_le _) honeDone with ⟨resA, haccA, hroomA⟩ | hfuel
+  · rw [hpre, Array.empty_append] at haccA
+    -- the same plaintext and length as for the whole input (C06)
+    obtain ⟨res', hacc', hout', hlen'⟩ := C06.reference_decoder_ignores_trailing_bytes #[] (catList (c :: cs)) b resA haccA
+    rw [hspec] at hacc'
+    simp only [Spec.Verdict.accept.injEq] at hacc'
+    subst hacc'
+    have hnfAll : ∀ r ∈ runCalls flagsF 0 {} (Array.replicate (W * ((c :: cs).length + 1)) 0) (0 + 0) #[]
+        (ringGrants flagsR W {} oR 0 0 #[] (c :: cs)), r.status ≠ stFailed := by
+      intro r' hr'
+      rw [hgr] at hr'
+      have hr'' : r' ∈ fs := by rw [← hfs]; exact hr'
+      by_cases hlastq : r' ∈ fs.dropLast
+      · exact suspended_ne_failed (hsusF r' hlastq)
+      · have : r' = lastF := by
+          have hdl := List.dropLast_concat_getLast hfne
+          rw [← hdl] at hr''
+          rcases List.mem_append.mp hr'' with h | h
+          · exact absurd h hlastq
+          · simp only [List.mem_singleton] at h
+            rw [h]
+            have := List.getLast?_eq_some_getLast hfne
+            rw [hlastF] at this
+            exact (Option.some.inj this).symm
+        rw [this, ← hl1, hdone]; decide
+    have hfin := valid_stream_through_a_ring flagsR flagsF W 32768 hfl hbig c cs oR resA hW hg hz hstop haccA
+      (by rw [hgr]; have := hroomA; simp only [Nat.zero_add, Nat.sub_zero] at this; omega) hsus hnfAll lastR hlast
+    exact ⟨hfin.1, by rw [hfin.2.2.2, hout'], by rw [hfin.2.2.1, hlen']⟩
+  · exact absurd hfuel (Spec.inflateSpec_ne_fuel _ _ _ _)
+
 
 end C07
